@@ -15,4 +15,4 @@ else
   (cd $M && patch -p1 -s < "$1"); shift
 fi
 [ "$1" = "--" ] && shift
-VERIF_REPO=$M /verif/check "$@"
+VERIF_REPO=$M VERIF_NO_EVIDENCE=1 /verif/check "$@"
